@@ -708,6 +708,11 @@ def name_forms(ctx: Ctx, rule: str) -> None:
     ok2 = sorted(rets) == sorted(["self.setless_form", "'\\\\.' + self.setless_form.replace(suffix, '.+') + '$'"])
     sdef = [s for s in f2.node.body if isinstance(s, ast.Assign) and ast.unparse(s.targets[0]) == "suffix"]
     ok2 = ok2 and len(sdef) == 1 and ast.unparse(sdef[0].value) == "self.params['_name_map_file'].get('nets.cfg', '')"
+    # which form for which node: the plain form exactly for flat nodes (no objects)
+    first = next((i for i in f2.node.body if isinstance(i, ast.If)), None)
+    flat_tests = ("len(self.objects) == 0", "self.is_flat()", "not self.objects")
+    ok2 = ok2 and first is not None and any(norm.equivalent(norm.formula(first.test), norm.formula(ast.parse(t, mode="eval").body)) for t in flat_tests) \
+        and [ast.unparse(x) for x in first.body] == ["return self.setless_form"] and not first.orelse
     ctx.record(rule + "b", "TABLE", fref2, "bridged_form = setless form with the net variant generalised ('.+'), anchored at a variant boundary and the end; flat nodes: setless form", ok2,
                {"returns": rets}, "" if ok2 else "the worker-invariant name form changed: equivalent nodes of different workers may no longer be linked")
 
